@@ -288,8 +288,9 @@ func (mc *MetricsCollector) updateAverageResponseTime(newResponseTime float64) {
 func (mc *MetricsCollector) GetMetrics() *Metrics {
 	mc.metrics.mutex.RLock()
 
-	// Update uptime (fast string operation)
-	mc.metrics.Uptime = time.Since(mc.metrics.StartTime).String()
+	// Uptime is derived, not stored: writing it into the shared struct while
+	// holding only the read lock raced with every other concurrent snapshot.
+	uptime := time.Since(mc.metrics.StartTime).String()
 
 	// Get pooled metrics object to reduce allocations
 	metricsCopy := mc.metricsPool.Get().(*Metrics)
@@ -314,7 +315,7 @@ func (mc *MetricsCollector) GetMetrics() *Metrics {
 
 	// Copy non-atomic fields
 	metricsCopy.StartTime = mc.metrics.StartTime
-	metricsCopy.Uptime = mc.metrics.Uptime
+	metricsCopy.Uptime = uptime
 
 	// Copy backend metrics using pooled objects
 	for name, backend := range mc.metrics.BackendMetrics {
